@@ -504,7 +504,9 @@ func (root *Root) validateDirUse(where string, loc Location, du *DirectiveUse) (
 			ErrValidation, where, loc, du.line, du.col))
 		return
 	}
-	found := false
+	// An empty location is used for directives on fields, arguments and
+	// input fields: only the arguments are checked there.
+	found := len(loc) == 0
 	for _, on := range d.On {
 		if loc == on {
 			found = true
